@@ -317,6 +317,10 @@ def sites_of(f, exact, prefix):
                     small = [u for u in (upper_bound(a[0], f), upper_bound(a[1], f)) if u is not None and u <= 255]
                     if small:
                         s.auto = "accumulator of type %s grows by at most %d per step (overflow needs more than 2^23 steps)" % (ty, min(small))
+                    elif ty == "usize" and any(x[0] == "call" and x[1].rsplit("::", 1)[-1] == "len" and ("str" in x[1] or "slice" in x[1] or "Vec" in x[1] or "String" in x[1]) for x in a):
+                        # a byte offset advanced by the length of a piece of the input: pieces of one string are
+                        # disjoint, their lengths sum to at most the string's length (< 2^63)
+                        s.auto = "usize offset advanced by the length of a piece of the input (the pieces of one string sum to its length, below isize::MAX)"
                 if m["op"] in ("Shl", "Shr") and len(a) == 2:
                     ub = upper_bound(a[1], f)
                     bits = INT_BITS.get(ty)
